@@ -95,9 +95,10 @@ def replay(model, fnd, prop):
         if "test result: ok" in out:
             return False, path, "native replay passes: staged shards are uploaded with a tiny shard size limit"
         return None, path, "native replay inconclusive (rc=%s)" % rc
-    rc, out = sh(["cargo", "test", "--offline", "--test", "c11_small_file_reupload", "--test", "c11_reupload_after_cache_reset"], cwd=os.path.join(VERIF, "replay"), env=env, timeout=2400,
+    rc, out = sh(["cargo", "test", "--offline", "--test", "c11_small_file_reupload", "--test", "c11_reupload_after_cache_reset", "--test", "c11_interleaved_files"], cwd=os.path.join(VERIF, "replay"), env=env, timeout=2400,
                  log=os.path.join(LOGS, "replay_c11.log"))
-    path = os.path.join(VERIF, "replay", "tests", "c11_reupload_after_cache_reset.rs" if "reupload_after_cache_reset_is_deduplicated_later ... FAILED" in out else "c11_small_file_reupload.rs")
+    path = os.path.join(VERIF, "replay", "tests", "c11_reupload_after_cache_reset.rs" if "reupload_after_cache_reset_is_deduplicated_later ... FAILED" in out else
+                        ("c11_interleaved_files.rs" if "reupload_after_interleaved_files_with_a_common_prefix ... FAILED" in out else "c11_small_file_reupload.rs"))
     if "test result: FAILED" in out:
         m = re.search(r"C11 violated: [^\n]*", out)
         return True, path, m.group(0) if m else ("native replay fails: " + (re.search(r"panicked at [^\n]*\n[^\n]*", out).group(0).replace("\n", " ")[:200] if re.search(r"panicked at [^\n]*\n[^\n]*", out) else "test failed"))
